@@ -33,6 +33,7 @@ class Ctx:
         self.run = run
         self.im = M.Impl()
         self.n_eval = 0
+        self.observers = False
 
     def vio(self, key, what, case):
         self.run.violation(key, what, case)
@@ -467,14 +468,28 @@ PX_ITEMS = [
     ("append to set", "length(append(<< bx >>, by)) == 1"),
 ]
 PX_NAMES = [n for n, _ in PX_ITEMS]
-PX_SRC = ("do def mx = <<<>>>; mx[bx] = 7; def my = <<<>>>; my[by] = 7; ["
+# the observers as functions of the interpreter session (parsed once; arguments are passed as the
+# objects themselves)
+PX_DEF = ("def c06_px(bx, by) do def mx = <<<>>>; mx[bx] = 7; def my = <<<>>>; my[by] = 7; ["
           + ", ".join(src for _, src in PX_ITEMS) + "]; end")
+PX_ROW_DEF = "def c06_px_row(bx, probes) [c06_px(bx, by) for by in probes]"
+PX_SRC = "c06_px(bx, by)"
 OBS_NAMES = AX_NAMES + PX_NAMES
+
+
+def define_observers(cx):
+    for d in (PX_DEF, PX_ROW_DEF):
+        o = cx.im.run(d)
+        if o[0] != "val":
+            raise MachineryError(f"the observer functions could not be defined: {o}")
 
 
 def observe_pair(cx, x, y, key, case):
     """(eq, ne, hq, px) of two implementation objects, or None after reporting a host exception"""
     im = cx.im
+    if not cx.observers:
+        define_observers(cx)
+        cx.observers = True
     o = M.host(lambda: (bool(x == y), bool(x != y), hash(x) == hash(y), ax_observe(x, y)))
     if o[0] == "host":
         cx.vio(f"rel:{key} !{o[1]}", f"host-exception: comparing {key} raised {o[1]} {o[2]}", case)
@@ -701,6 +716,9 @@ def check_edits(cx, res, use_api):
         raise MachineryError("ValEdit exported no pool")
     F = fp[0]["f"]
     Fv = [M.build(f, im.refs) for f in F]
+    if not cx.observers:
+        define_observers(cx)
+        cx.observers = True
     seen = set()
     ops = {}
     n = ndrift = 0
@@ -743,7 +761,12 @@ def check_edits(cx, res, use_api):
                                                                "model": lit_key(post)})
             ndrift += 1
             continue
-        probes = [(post, M.build(post, im.refs), True)] + [(f, fv, q) for f, fv, q in zip(F, Fv, e["eqs"])]
+        # a fresh value of the same content, every pool value Equal to it, and three that are not
+        # (rotating through the pool; the content before the edit among them when the pool has it)
+        probes = [(post, M.build(post, im.refs), True)] + [(f, fv, q) for f, fv, q in zip(F, Fv, e["eqs"]) if q]
+        ne = [(f, fv, q) for f, fv, q in zip(F, Fv, e["eqs"]) if not q]
+        was = [t for t in ne if M.canon(t[0]) == M.canon(pre)]
+        probes += was[:1] + [ne[(n + j * 7) % len(ne)] for j in range(3)]
         pl = V.ValueList()
         for _, pv, _ in probes:
             pl.addItem(pv)
@@ -762,11 +785,12 @@ def check_edits(cx, res, use_api):
             got = [eq, not ne] + ax1 + ax2
             names = ["api:==", "api:!="] + AX_NAMES + [t + " (fresh value held, edited object as probe)"
                                                         for t in AX_NAMES]
-            for nm, g in zip(names, got):
-                if g != want:
-                    cx.vio(f"edit {nm}:{desc} ~ {lit_key(b)}",
-                           f"history: after {desc} the object is {lit_key(post)}; `{nm}` against a freshly "
-                           f"written {lit_key(b)} answers {g}, the model says {want}", dict(case, probe=b))
+            wrong = [nm for nm, g in zip(names, got) if g != want]
+            if wrong:
+                cx.vio(f"edit:{desc} ~ {lit_key(b)}",
+                       f"history: after {desc} the object is {lit_key(post)}; against a freshly written "
+                       f"{lit_key(b)} the model says {'equal' if want else 'not equal'}, {len(wrong)} of "
+                       f"{len(names)} observers answer otherwise: {wrong[:6]}", dict(case, probe=b))
             if want and not hq:
                 cx.vio(f"edit hash:{desc} ~ {lit_key(b)}",
                        f"hash: after {desc} the object equals a freshly written {lit_key(b)} but their hashes "
@@ -783,17 +807,17 @@ def check_edits(cx, res, use_api):
         else:
             rows = M.bools(oo[1])
             for (b, pv, want), row in zip(probes, rows):
-                for nm, g in zip(PX_NAMES, row):
-                    if g != want:
-                        cx.vio(f"edit prog {nm}:{desc} ~ {lit_key(b)}",
-                               f"history: after {desc} the object is {lit_key(post)}; program `{nm}` against a "
-                               f"freshly written {lit_key(b)} answers {g}, the model says {want}",
-                               dict(case, probe=b))
+                wrong = [nm for nm, g in zip(PX_NAMES, row) if g != want]
+                if wrong:
+                    cx.vio(f"edit-prog:{desc} ~ {lit_key(b)}",
+                           f"history: after {desc} the object is {lit_key(post)}; against a freshly written "
+                           f"{lit_key(b)} the model says {'equal' if want else 'not equal'}, {len(wrong)} of "
+                           f"{len(PX_NAMES)} interpreted observers answer otherwise: {wrong[:6]}",
+                           dict(case, probe=b))
     return n, ndrift, ops
 
 
-HROW_SRC = ("[do def bx = hw; def mx = <<<>>>; mx[bx] = 7; def my = <<<>>>; my[by] = 7; ["
-            + ", ".join(src for _, src in PX_ITEMS) + "]; end for by in PF]")
+HROW_SRC = "c06_px_row(hw, PF)"
 
 
 def random_edit(rng, cur):
@@ -1018,9 +1042,23 @@ def run(run):
     cx = Ctx(run)
     res_u, res, res_r, res_e = M.tlc_parallel([
         ("ValLaws", "ValLaws_c06_quick" if quick else "ValLaws_c06_thorough", dict(coverage=False, timeout=3000)),
-        ("ValCont", "ValCont_quick" if quick else "ValCont_thorough", dict(coverage=True, timeout=3000)),
-        ("ValCont", "ValCont_rich", dict(coverage=True, timeout=3000)),
-        ("ValEdit", "ValEdit_quick" if quick else "ValEdit_thorough", dict(coverage=True, timeout=3000))])
+        ("ValCont", "ValCont_quick" if quick else "ValCont_thorough", dict(coverage=False, timeout=3000)),
+        ("ValCont", "ValCont_rich", dict(coverage=False, timeout=3000)),
+        ("ValEdit", "ValEdit_quick" if quick else "ValEdit_thorough", dict(coverage=False, timeout=3000))])
+    # how often each action was taken, counted from the transitions the specs export (TLC's -coverage
+    # instruments every operator of Val.tla, which costs more than the runs themselves)
+    for r in (res, res_r):
+        acts = {"SetAppend": 0, "SetRemoveA": 0, "MapPutA": 0, "MapRemoveA": 0}
+        for e in r.records("EDGE"):
+            acts[{("set", "append"): "SetAppend", ("set", "remove"): "SetRemoveA", ("map", "put"): "MapPutA",
+                  ("map", "remove"): "MapRemoveA"}[(e["pre"]["k"], e["op"])]] += 1
+        r.coverage = acts
+    acts = {a: 0 for a in ("WSetAt", "WAppend", "WInsertAt", "WDeleteAt", "WRemove", "WPut", "WSetChar", "InnerEdit")}
+    for e in res_e.records("EDGE"):
+        nm = {"setat": "WSetAt", "append": "WAppend", "insertat": "WInsertAt", "deleteat": "WDeleteAt",
+              "remove": "WRemove", "put": "WPut", "setchar": "WSetChar"}[e["op"]["name"]]
+        acts["InnerEdit" if e["path"] else nm] += 1
+    res_e.coverage = acts
     u = M.load_universe(run, None, "ValLaws: equality laws over the universe", res_u)
     n = u["n"]
     A, L = build_universe(cx, u)
@@ -1152,8 +1190,11 @@ def replay(run, case):
                 if eq[i][j]:
                     check_equal_pair_prog(cx, u, i, j)
     elif k == "trace":
-        bad = M.validate(run, case["events"], "replay")
+        events = reobserve(cx, case["events"])
+        bad = M.validate(run, events, "replay")
         for kk, why in bad:
+            if why in ("edit-enabled", "edit-result"):
+                continue
             run.violation(f"replay-trace:{case['meta'][kk]} @{why}", f"{why}: rejected by Val_Trace", case)
     elif k == "prog":
         o = cx.im.run(case["src"])
@@ -1161,6 +1202,64 @@ def replay(run, case):
             run.violation("replay:" + case["src"], f"host-exception: {o[1]}", case)
     elif k in ("read", "edge"):
         replay_container(cx, case)
+    elif k == "edit":
+        replay_edit(cx, case)
+
+
+def reobserve(cx, events):
+    """the recorded events observed again on the current implementation, as far as they can be
+    rebuilt from the record: relations of two values, and the history of an edited object (container
+    histories are validated as recorded)"""
+    im = cx.im
+    out = []
+    w = None
+    hist = ""
+    for e in events:
+        if e["op"] == "rel" and "px" in e:
+            out.append(rel_event(cx, e["a"], e["b"]) or e)
+        elif e["op"] == "hnew":
+            w = M.build(e["v"], im.refs)
+            hist = "def hw = " + lit_key(e["v"])
+            out.append(e)
+        elif e["op"] == "hedit" and w is not None:
+            touch(cx, w)
+            stmt = edit_stmt(e["path"], {"name": e["name"], "i": e["i"], "e": e["e"], "x": e["x"]})
+            o = im.run(stmt)
+            hist += "; " + stmt
+            try:
+                out.append(dict(e, okk=o[0] == "val", cur=M.to_abs(w, im.refs, True)))
+            except M.Unencodable:
+                out.append(e)
+        elif e["op"] == "hrel" and w is not None:
+            out.append(hrel_event(cx, w, e["b"], hist) or e)
+        else:
+            out.append(e)
+    return out
+
+
+def replay_edit(cx, case):
+    """an edit case as a history validated by Val_Trace: build, take the hash, edit, compare"""
+    im = cx.im
+    pre, path, op = case["pre"], case["path"], case["op"]
+    w = M.build(pre, im.refs)
+    touch(cx, w)
+    stmt = edit_stmt(path, op, case.get("alt", False))
+    o = im.run(stmt)
+    if o[0] == "host":
+        cx.vio(f"replay-edit:{stmt} !{o[1]}", f"host-exception: {stmt} raised {o[1]}", case)
+        return
+    cur = M.to_abs(w, im.refs, True)
+    events = [{"op": "hnew", "v": pre},
+              {"op": "hedit", "path": path, "name": op["name"], "i": op["i"], "e": op["e"], "x": op["x"],
+               "okk": o[0] == "val", "cur": cur}]
+    hist = f"def hw = {lit_key(pre)}; {stmt}"
+    for b in [cur] + ([case["probe"]] if "probe" in case else []):
+        e = hrel_event(cx, w, b, hist)
+        if e:
+            events.append(e)
+    for kk, why in M.validate(cx.run, events, "replay"):
+        if why not in ("edit-enabled", "edit-result"):
+            cx.vio(f"replay-edit:{hist} @{why} #{kk}", f"{why}: rejected by Val_Trace: {_brief(events[kk])}", case)
 
 
 def replay_container(cx, case):
